@@ -92,3 +92,7 @@ Fixpoint first_diff {A} (eqb : A -> A -> bool) (l1 l2 : list A) (i : N) : option
 Lemma first_diff_refl {A} (eqb : A -> A -> bool) (H : forall a, eqb a a = true) l i :
   first_diff eqb l l i = None.
 Proof. revert i; induction l as [|x l IH]; intros i; cbn; [reflexivity|]. rewrite H. apply IH. Qed.
+
+(* text = list of Unicode scalar values (the harness prints str::chars()); addresses and denoms
+   are ASCII, so for them code points = bytes.  Compared with bcmp. *)
+Definition text := list N.
